@@ -15,6 +15,7 @@ import (
 	"pgregory.net/rapid"
 
 	"github.com/truora/minidyn/interpreter/language"
+	mtypes "github.com/truora/minidyn/types"
 
 	"verifharness/drv"
 	"verifharness/gen"
@@ -191,7 +192,34 @@ func pokeV2Map(m map[string]types2.AttributeValue, p *picker) {
 	}
 }
 
-var c14Scenarios = []string{"input-after-put", "output-of-get", "output-of-scan", "output-of-query", "update-values-and-output", "kept-output-vs-later-write", "batch-write-input", "delete-old-output", "condition-failure-item"}
+var c14Scenarios = []string{"input-after-put", "output-of-get", "output-of-scan", "output-of-query", "update-values-and-output", "kept-output-vs-later-write", "batch-write-input", "delete-old-output", "condition-failure-item",
+	"last-evaluated-key", "upsert-key-input", "native-updater-values"}
+
+// c14BinTable: a table whose key attributes are binary (mutable byte slices).
+func c14BinTable() *model.Schema {
+	return &model.Schema{Table: "tblb", Hash: "pk", Range: "sk", Attrs: map[string]string{"pk": "B", "sk": "B"}, Billing: "PAY_PER_REQUEST"}
+}
+
+// c14BinItems: three items of one partition of c14BinTable carrying the case's attributes.
+func c14BinItems(attrs model.Item) []model.Item {
+	var out []model.Item
+	for i := 0; i < 3; i++ {
+		it := model.CloneItem(attrs)
+		it["pk"] = model.Bin([]byte{1, 2})
+		it["sk"] = model.Bin([]byte{0, byte(i + 1)})
+		out = append(out, it)
+	}
+	return out
+}
+
+// c14StoringUpdater is the kind of native updater the README shows: it stores
+// the attribute values it is handed.
+func c14StoringUpdater(item map[string]*mtypes.Item, attrs map[string]*mtypes.Item) {
+	item["st"] = attrs[":s"]
+	item["doc"] = attrs[":d"]
+}
+
+var c14UpdaterValues = model.Item{":s": model.Str("running"), ":d": model.Map(map[string]model.AV{"k": model.Str("v"), "ss": model.StrSet("x", "y"), "l": model.List(model.Num("1"), model.Bin([]byte{1, 2}))})}
 
 func singletonsIntact() *failure {
 	if !language.TRUE.Value || language.FALSE.Value || !language.UNDEFINED.IsUndefined {
@@ -287,6 +315,74 @@ func runC14(c c14Case, pokes *int) (fl *failure) {
 			cur, _ := cl.GetItem(&ddb1.GetItemInput{TableName: aws1.String("tbl"), Key: drv.ToV1Item(key)})
 			pokeV1Map(cur.Item, p)
 			return differs("a previously returned item after later writes", drv.FromV1Item(out.Item), kept)
+		case "last-evaluated-key":
+			d.Apply(model.Op{Kind: "CreateTable", Schema: c14BinTable()})
+			items := c14BinItems(c.Item)
+			for _, it := range items {
+				if _, err := cl.PutItem(&ddb1.PutItemInput{TableName: aws1.String("tblb"), Item: drv.ToV1Item(it)}); err != nil {
+					return nil
+				}
+			}
+			all := func() []string {
+				out, err := cl.Scan(&ddb1.ScanInput{TableName: aws1.String("tblb")})
+				if err != nil {
+					return []string{err.Error()}
+				}
+				var l []model.Item
+				for _, it := range out.Items {
+					l = append(l, drv.FromV1Item(it))
+				}
+				return model.CanonItems(l)
+			}
+			exp := all()
+			sc, err := cl.Scan(&ddb1.ScanInput{TableName: aws1.String("tblb"), Limit: aws1.Int64(1)})
+			if err != nil || len(sc.LastEvaluatedKey) == 0 {
+				return nil
+			}
+			start := drv.ToV1Item(drv.FromV1Item(sc.LastEvaluatedKey))
+			pokeV1Map(sc.LastEvaluatedKey, p)
+			q, err := cl.Query(&ddb1.QueryInput{TableName: aws1.String("tblb"), KeyConditionExpression: aws1.String("pk = :k"), Limit: aws1.Int64(1), ExclusiveStartKey: start,
+				ExpressionAttributeValues: map[string]*ddb1.AttributeValue{":k": {B: []byte{1, 2}}}})
+			if err == nil {
+				pokeV1Map(q.LastEvaluatedKey, p)
+				pokeV1Map(start, p)
+			}
+			if got := all(); !sameStrings(exp, got) {
+				return newFail("stored data shares memory with the caller", "%s %s: after mutating LastEvaluatedKey / ExclusiveStartKey: expected %v, read %v", c.Client, c.Scenario, exp, got)
+			}
+			return singletonsIntact()
+		case "upsert-key-input":
+			d.Apply(model.Op{Kind: "CreateTable", Schema: c14BinTable()})
+			k := model.Item{"pk": model.Bin([]byte{9, 9}), "sk": model.Bin([]byte{7})}
+			keyIn := drv.ToV1Item(k)
+			vals := drv.ToV1Item(model.Item{":v": c.Item["b"]})
+			if _, err := cl.UpdateItem(&ddb1.UpdateItemInput{TableName: aws1.String("tblb"), Key: keyIn, UpdateExpression: aws1.String("SET upd = :v"), ExpressionAttributeValues: vals}); err != nil {
+				return nil
+			}
+			read := func() model.Item {
+				out, err := cl.GetItem(&ddb1.GetItemInput{TableName: aws1.String("tblb"), Key: drv.ToV1Item(k)})
+				if err != nil {
+					return model.Item{"error": model.Str(err.Error())}
+				}
+				return drv.FromV1Item(out.Item)
+			}
+			exp := read()
+			pokeV1Map(keyIn, p)
+			pokeV1Map(vals, p)
+			return differs("after mutating the key and values of an upserting UpdateItem", read(), exp)
+		case "native-updater-values":
+			cl.ActivateNativeInterpreter()
+			cl.GetNativeInterpreter().AddUpdater("tbl", "SET st = :s, doc = :d", c14StoringUpdater)
+			vals := drv.ToV1Item(c14UpdaterValues)
+			out, err := cl.UpdateItem(&ddb1.UpdateItemInput{TableName: aws1.String("tbl"), Key: drv.ToV1Item(key), UpdateExpression: aws1.String("SET st = :s, doc = :d"), ExpressionAttributeValues: vals,
+				ReturnValues: aws1.String("ALL_NEW")})
+			if err != nil {
+				return nil
+			}
+			exp := get()
+			pokeV1Map(vals, p)
+			pokeV1Map(out.Attributes, p)
+			return differs("after mutating the values handed to a native updater", get(), exp)
 		case "delete-old-output":
 			out, err := cl.DeleteItem(&ddb1.DeleteItemInput{TableName: aws1.String("tbl"), Key: drv.ToV1Item(key), ReturnValues: aws1.String("ALL_OLD")})
 			if err != nil {
@@ -377,6 +473,74 @@ func runC14(c c14Case, pokes *int) (fl *failure) {
 		}
 		pokeV2Map(cf.Item, p)
 		return differs("after mutating the item carried by a ConditionalCheckFailedException", get(), want)
+	case "last-evaluated-key":
+		d.Apply(model.Op{Kind: "CreateTable", Schema: c14BinTable()})
+		items := c14BinItems(c.Item)
+		for _, it := range items {
+			if _, err := cl.PutItem(ctx, &ddb2.PutItemInput{TableName: aws.String("tblb"), Item: drv.ToV2Item(it)}); err != nil {
+				return nil
+			}
+		}
+		all := func() []string {
+			out, err := cl.Scan(ctx, &ddb2.ScanInput{TableName: aws.String("tblb")})
+			if err != nil {
+				return []string{err.Error()}
+			}
+			var l []model.Item
+			for _, it := range out.Items {
+				l = append(l, drv.FromV2Item(it))
+			}
+			return model.CanonItems(l)
+		}
+		exp := all()
+		sc, err := cl.Scan(ctx, &ddb2.ScanInput{TableName: aws.String("tblb"), Limit: aws.Int32(1)})
+		if err != nil || len(sc.LastEvaluatedKey) == 0 {
+			return nil
+		}
+		start := drv.ToV2Item(drv.FromV2Item(sc.LastEvaluatedKey))
+		pokeV2Map(sc.LastEvaluatedKey, p)
+		q, err := cl.Query(ctx, &ddb2.QueryInput{TableName: aws.String("tblb"), KeyConditionExpression: aws.String("pk = :k"), Limit: aws.Int32(1), ExclusiveStartKey: start,
+			ExpressionAttributeValues: map[string]types2.AttributeValue{":k": &types2.AttributeValueMemberB{Value: []byte{1, 2}}}})
+		if err == nil {
+			pokeV2Map(q.LastEvaluatedKey, p)
+			pokeV2Map(start, p)
+		}
+		if got := all(); !sameStrings(exp, got) {
+			return newFail("stored data shares memory with the caller", "%s %s: after mutating LastEvaluatedKey / ExclusiveStartKey: expected %v, read %v", c.Client, c.Scenario, exp, got)
+		}
+		return singletonsIntact()
+	case "upsert-key-input":
+		d.Apply(model.Op{Kind: "CreateTable", Schema: c14BinTable()})
+		k := model.Item{"pk": model.Bin([]byte{9, 9}), "sk": model.Bin([]byte{7})}
+		keyIn := drv.ToV2Item(k)
+		vals := drv.ToV2Item(model.Item{":v": c.Item["b"]})
+		if _, err := cl.UpdateItem(ctx, &ddb2.UpdateItemInput{TableName: aws.String("tblb"), Key: keyIn, UpdateExpression: aws.String("SET upd = :v"), ExpressionAttributeValues: vals}); err != nil {
+			return nil
+		}
+		read := func() model.Item {
+			out, err := cl.GetItem(ctx, &ddb2.GetItemInput{TableName: aws.String("tblb"), Key: drv.ToV2Item(k)})
+			if err != nil {
+				return model.Item{"error": model.Str(err.Error())}
+			}
+			return drv.FromV2Item(out.Item)
+		}
+		exp := read()
+		pokeV2Map(keyIn, p)
+		pokeV2Map(vals, p)
+		return differs("after mutating the key and values of an upserting UpdateItem", read(), exp)
+	case "native-updater-values":
+		cl.ActivateNativeInterpreter()
+		cl.GetNativeInterpreter().AddUpdater("tbl", "SET st = :s, doc = :d", c14StoringUpdater)
+		vals := drv.ToV2Item(c14UpdaterValues)
+		out, err := cl.UpdateItem(ctx, &ddb2.UpdateItemInput{TableName: aws.String("tbl"), Key: drv.ToV2Item(key), UpdateExpression: aws.String("SET st = :s, doc = :d"), ExpressionAttributeValues: vals,
+			ReturnValues: types2.ReturnValueAllNew})
+		if err != nil {
+			return nil
+		}
+		exp := get()
+		pokeV2Map(vals, p)
+		pokeV2Map(out.Attributes, p)
+		return differs("after mutating the values handed to a native updater", get(), exp)
 	case "delete-old-output":
 		out, err := cl.DeleteItem(ctx, &ddb2.DeleteItemInput{TableName: aws.String("tbl"), Key: drv.ToV2Item(key), ReturnValues: types2.ReturnValueAllOld})
 		if err != nil {
@@ -400,7 +564,7 @@ func init() {
 	}
 }
 
-const ruleC14 = "rapid: an item drawn from the full attribute-value generator (nested lists and maps, sets, binaries), a client (SDK v1 / v2), a scenario (mutate the input after PutItem / BatchWriteItem; mutate the output of GetItem / Scan / Query / UpdateItem / DeleteItem ALL_OLD and the UpdateItem values map; keep an output across later writes) and a poke plan - one generated decision per mutable location of the concrete SDK structure in traversal order (each *string, *bool, byte-slice element, list slot, map entry, set member). Oracle: a read after the pokes equals the deep snapshot taken before them (a kept output equals its own snapshot after later writes), and the interpreter's TRUE / FALSE / UNDEFINED singletons keep their values. Non-trivial = at least one poke performed on a pointer, slice or map location; distinct = hash of (client, scenario, item, mask)."
+const ruleC14 = "rapid: an item drawn from the full attribute-value generator (nested lists and maps, sets, binaries), a client (SDK v1 / v2), a scenario (mutate the input after PutItem / BatchWriteItem; mutate the output of GetItem / Scan / Query / UpdateItem / DeleteItem ALL_OLD and the UpdateItem values map; keep an output across later writes; mutate the LastEvaluatedKey of a paginated Scan / Query and the ExclusiveStartKey passed in, on a table with binary keys; mutate the key and values of an upserting UpdateItem; mutate the values handed to a registered native updater that stores them) and a poke plan - one generated decision per mutable location of the concrete SDK structure in traversal order (each *string, *bool, byte-slice element, list slot, map entry, set member). Oracle: a read after the pokes equals the deep snapshot taken before them (a kept output equals its own snapshot after later writes), and the interpreter's TRUE / FALSE / UNDEFINED singletons keep their values. Non-trivial = at least one poke performed on a pointer, slice or map location; distinct = hash of (client, scenario, item, mask)."
 
 // TestC14 decides property C14.
 func TestC14(t *testing.T) {
